@@ -265,6 +265,8 @@ def _bmoc_family(pid, mode):
         # xor
         (3, 1, 1, 1, 1, Q), (3, 1, 1, 2, 2, Q), (3, 1, 1, 2, 1, Q), (3, 1, 0, 1, 1, T), (3, 1, 1, 1, 2, T),
         (3, 1, 2, 1, 1, T, 3600, 40), (3, 2, 1, 1, 1, T, 3600, 40),
+        # two cells of depth <= 1 against one base cell (a coarse cell overlapping several deeper cells), cheaper than the (2,1) shapes at equal depth_max
+        (3, 2, 1, 1, 0, T, 2400, 16), (3, 1, 2, 0, 1, T, 2400, 16), (2, 2, 1, 1, 0, T, 2400, 16),
     ]
     for sh in shapes:
         op, na, nb, dma, dmb, tiers = sh[:6]
@@ -448,8 +450,8 @@ PROPS['C15'] = dict(
                'BMOCBuilderUnsafe::{pack,to_lower_depth,to_bmoc_packing,to_lower_depth_bmoc,to_lower_depth_bmoc_packing,low_depth_raw_val_at_lower_depth}',
                'slice::sort_unstable', 'Vec::dedup'],
     bounds={'quick': 'pack: every valid sequence of 4 entries at depth_max 1 and of 2 entries at depth_max 2; lower depth: 2 entries, 2->1 and 1->0 (packing); '
-                     'fixed-depth builder: depth 1, (capacity, pushes) in {(3,2),(1,2),(4,1),(4,0)} (2 pushes in any order, duplicates included)',
-            'thorough': 'pack: 3 and 4 entries at depth_max 2; lower depth: 3 entries, 2->0; fixed-depth builder (real sort model, 40 GB): 4 pushes capacity 4 depth 0, 2 pushes capacity 2 depth 1 (other shapes: tier extended)'},
+                     'fixed-depth builder: depth 1, (capacity, pushes) in {(3,2),(1,2),(4,1),(4,0)} (2 pushes in any order, duplicates included); its merge step buff_to_bmoc alone: every strictly increasing buffer of 4 cells at depths 0 and 1',
+            'thorough': 'pack: 3 and 4 entries at depth_max 2; lower depth: 3 entries, 2->0; buff_to_bmoc on 4 cells at depth 2 and 3 cells at depth 1; fixed-depth builder end to end (sort model, 40 GB): 2 pushes capacity 2 depth 1 (other shapes, e.g. 4 pushes capacity 4 -- out of memory at 40 GB: tier extended)'},
     outside='push sequences longer than 4, sequences longer than 4 entries; in the fixed-depth builder harnesses the packing step of `or` is cut (pack is decided by the pack harnesses) '
             'and std slice::sort_unstable is replaced by an insertion-sort model (<= 4 elements, asserted)',
     assumptions=_BMOC_ASSUME,
@@ -686,7 +688,7 @@ PROPS['C06'] = dict(
     functions=['nested::cone_coverage_approx', 'nested::cone_coverage_approx_custom', 'Layer::cone_coverage_approx_internal', 'Layer::allsky_bmoc_builder',
                'Layer::cone_coverage_approx_recur', 'BMOCBuilderUnsafe::{push_all,pack,to_lower_depth,to_bmoc_packing,to_lower_depth_bmoc_packing}'],
     bounds={'quick': 'whole sky: (depth, delta) in {(0,0),(3,0),(29,0),(0,1),(2,2),(27,2)}, radius in {pi, nextafter(pi), 4, 1e300, +inf} and every centre; recursion threshold logic: '
-                     'one root, 1 level below depth 0 and depth 1; pack: every valid sequence of 4 entries at depth_max 1',
+                     'one root, 1 level below depth 0 and depth 1; pack: every valid sequence of 4 entries at depth_max 1 and of 4 depth-1 entries at depth_max 2; radius exactly pi with the recursive descent cut away (depth 0, every centre)',
             'thorough': 'adds (depth, delta) (1,0),(16,0),(5,3),(28,1),(0,29); recursion 2 levels'},
     outside='NOT decided (stated in DESIGN.md 5 C06): that `distance <= min` really means "entirely inside the cone" and the radius + 2*c2v tightness -- both need the '
             'true haversine distance and the centre-to-vertex envelope; the small-cone branch (centre cell + neighbours)',
@@ -836,8 +838,8 @@ _KEEP_T = {
     'C03': r'^c03_(centre|vertices)_d(3|8|17|29)$|^c03_offset_d(0|1)$|^c03_path_d(2|29)$|^c03_border_\w+_d(0|1)$|^c03_inv_(npc_b0|eqr_b5|spc_b10)_d0$|^c03_range_\w+_d(0|1|2|8|16|28)$',
     'C04': r'^c04_pair_d(4|8|16|17|24)$',
     'C06': r'.',
-    'C07': r'^(?!c07_(or|xor)_(1_2|2_1)_)',
-    'C08': r'^(?!c08_(or_2_1|xor_1_2)_)',
+    'C07': r'^(?!c07_(or|xor)_(1_2|2_1)_dm11)',
+    'C08': r'^(?!c08_(or_2_1|xor_1_2)_dm11)',
     'C09': r'^(?!c09_views_\w+_3_dm1$)',
     'C10': r'_d3$|^c10_\w+_eqr_d(5|8|16|17|28)$|^c10_ringends_[ns]_(d26_k67108800|d29_k536870848|d29_k402653184)$',
     'C11': r'^c11_(center|order)_n(4|5|7|8|13|536870911|536870912)$|^c11_point_\w+_n(3|5)_q\d$|^c11_point_eqr_n2$',
